@@ -3,12 +3,11 @@ package main
 import (
 	"context"
 	"database/sql"
-	"errors"
 	"fmt"
 	"io"
 	"os"
 	"path/filepath"
-	"bytes"
+	"time"
 
 	"github.com/jdillenkofer/pithos/internal/storage/database"
 	"github.com/jdillenkofer/pithos/internal/storage/metadatapart/partstore"
@@ -47,31 +46,31 @@ func main() {
 	}))
 	ps.Stop(ctx)
 
-	// cache over sql
-	cs := `{"type":"CachePartStore","maxPartSizeBytes":1000,"cacheReadErrorsAsMiss":false,"cache":{"type":"GenericCache","cachePersistor":{"type":"InMemoryPersistor"},"cacheEvictionPolicy":{"type":"EvictNothingEvictionPolicy"}},"innerPartStore":{"type":"SqlPartStore","db":{"type":"DatabaseReference","refName":"db"},"partStoreId":"x"}}`
-	ps, err = stacks.BuildPartStore([]byte(cs), map[string]database.Database{"db": db})
+	// ec over sql, missing part, RO tx
+	sq := func(n string) string { return fmt.Sprintf(`{"type":"SqlPartStore","db":{"type":"DatabaseReference","refName":"db"},"partStoreId":%q}`, n) }
+	ec2 := fmt.Sprintf(`{"type":"ErasureCodedPartStoreMiddleware","dataShards":2,"parityShards":1,"streamBlockSize":4096,"healScanIntervalSeconds":0,"partStores":[%s,%s,%s]}`, sq("a"), sq("b"), sq("c"))
+	ps, err = stacks.BuildPartStore([]byte(ec2), map[string]database.Database{"db": db})
 	must(err)
 	must(ps.Start(ctx))
-	id2, _ := partstore.NewRandomPartId()
-	err = database.WithTx(ctx, db, &sql.TxOptions{}, func(ctx context.Context, tx database.Tx) error {
-		must(ps.PutPart(ctx, tx, *id2, bytes.NewReader([]byte("hello"))))
-		rc, err := ps.GetPart(ctx, tx, *id2)
-		must(err)
-		b, _ := io.ReadAll(rc)
-		rc.Close()
-		fmt.Println("in-tx read:", string(b))
-		return errors.New("rollback")
-	})
-	fmt.Println("tx:", err)
-	err = database.WithTx(ctx, db, &sql.TxOptions{ReadOnly: true}, func(ctx context.Context, tx database.Tx) error {
-		rc, err := ps.GetPart(ctx, tx, *id2)
-		if err != nil {
-			return err
-		}
-		b, _ := io.ReadAll(rc)
-		rc.Close()
-		fmt.Println("after rollback read:", string(b))
-		return nil
-	})
-	fmt.Println("after rollback:", err)
+	id3, _ := partstore.NewRandomPartId()
+	done := make(chan struct{})
+	go func() {
+		err = database.WithTx(ctx, db, &sql.TxOptions{ReadOnly: true}, func(ctx context.Context, tx database.Tx) error {
+			rc, err := ps.GetPart(ctx, tx, *id3)
+			fmt.Println("ec/sql RO get missing:", err)
+			if err == nil {
+				b, e := io.ReadAll(rc)
+				fmt.Println(" read", len(b), e)
+				rc.Close()
+			}
+			return nil
+		})
+		fmt.Println("ro tx:", err)
+		close(done)
+	}()
+	select {
+	case <-done:
+	case <-time.After(5 * time.Second):
+		fmt.Println("HANG: ec over sql, missing part in RO tx")
+	}
 }
